@@ -22,6 +22,11 @@ from vf import core  # noqa: E402
 from vf import known  # noqa: E402
 
 
+class StalledError(RuntimeError):
+  """A worker process delivered no result for a very long time: it died (the pool then loses its task for good) or the
+  code under test left it stuck on something the harness does not control.  The exploration cannot be completed."""
+
+
 class Ctx:
   """Handed to a check's run(): tier, seed, parallel map."""
 
@@ -50,9 +55,24 @@ class Ctx:
     order = list(range(len(items)))
     random.Random(self.seed).shuffle(order)
     out = [None] * len(items)
-    results = self.pool().imap(fn, [items[i] for i in order], chunksize)
-    for i, r in zip(order, results):
-      out[i] = r
+    permuted = [items[i] for i in order]
+    chunks = [permuted[k:k + chunksize] for k in range(0, len(permuted), max(1, chunksize))]
+    results = self.pool().imap(_chunk_call, [(fn, c) for c in chunks])
+    # (generous: under full load the slowest single task of the quick tier takes about two minutes, of the thorough
+    #  tier about twenty)
+    limit = float(os.environ.get('VERIF_RESULT_TIMEOUT', 600 if self.quick else 7200))
+    pos = 0
+    for c in chunks:
+      try:
+        rs = results.next(timeout=limit)
+      except multiprocessing.TimeoutError:
+        self._pool.terminate()
+        self._pool = None
+        raise StalledError('no result from the worker pool within %.0f s (tasks %d..%d of %d, first: %.200r): a worker '
+                           'died or is stuck' % (limit, pos + 1, pos + len(c), len(order), c[0])) from None
+      for r in rs:
+        out[order[pos]] = r
+        pos += 1
     return out
 
   def close(self):
@@ -60,6 +80,11 @@ class Ctx:
       self._pool.terminate()
       self._pool.join()
       self._pool = None
+
+
+def _chunk_call(args):
+  fn, chunk = args
+  return [fn(x) for x in chunk]
 
 
 def _pin_worker():
@@ -205,6 +230,11 @@ def main(argv=None):
       res = mod.run(ctx)
     else:
       res = default_run(mod, ctx)
+  except StalledError as e:
+    # The bounded exploration could not be completed: never the case on the unchanged tree (every check completes there,
+    # far below the limit), so it is reported as what it is -- the code under test stalls or kills the explorer.
+    res = core.Result()
+    res.violation('exploration_stalled', str(e), {'stalled': str(e)})
   finally:
     ctx.close()
   wall = time.time() - t0
